@@ -23,6 +23,15 @@
 (* deviation "drop forgets the queue" (negative control: TLC must find     *)
 (* the misattribution).                                                    *)
 (*                                                                         *)
+(* Source selection: the server carries more sources than it uses by       *)
+(* default; `!s<list>` / `!s-*` change the selection OF THE CONNECTION,    *)
+(* and every later answer comes from the selected sources (Ans for the     *)
+(* default selection, AnsAll for all sources).  bgpfu never sends `!s`.    *)
+(* WidenOnNotUnique = TRUE is the deviation "a filter-set answered E is    *)
+(* looked up again source by source and the selection is then reset with   *)
+(* `!s-*`" (negative control: TLC must find a later call whose value is    *)
+(* not the one the default selection defines).                             *)
+(*                                                                         *)
 (* Contract (C17, design level):                                           *)
 (*   Aligned     every element the client consumes as part of the answer   *)
 (*               to query q was sent by the server in answer to q          *)
@@ -38,7 +47,9 @@ EXTENDS IrrdProto
 CONSTANTS Calls,        \* the resolver calls that may occur: records [k |-> kind, n |-> name]
           MaxCalls,     \* length of the history
           DrainOnDrop,
-          Ans           \* the server's database: query -> [st, items]
+          Ans,          \* the server's database as seen with its default source selection: query -> [st, items]
+          AnsAll,       \* ... and with every source it carries selected
+          WidenOnNotUnique
 
 Elements(q) == ElementsA(Ans, q)
 Meaning(call) == MeaningA(Ans, call)
@@ -55,15 +66,16 @@ VARIABLES
   got,       \* ghost: what was consumed, [believed, actual]
   acc,       \* values collected by the call in progress
   found,     \* fset: an object with mp-filter was found
-  results    \* per call: [ok, val]
-vars == <<work, w, pc, cq, cur, toSrv, toCli, got, acc, found, results>>
+  results,   \* per call: [ok, val]
+  sel        \* server side: the source selection of this connection, "default" | "all"
+vars == <<work, w, pc, cq, cur, toSrv, toCli, got, acc, found, results, sel>>
 
 RECURSIVE SeqsUpTo(_, _)
 SeqsUpTo(S, n) == IF n = 0 THEN {<<>>} ELSE LET r == SeqsUpTo(S, n - 1) IN r \cup {Append(s, c) : s \in {x \in r : Len(x) = n - 1}, c \in S}
 
 Init == /\ work \in {<<[k |-> "init", n |-> "id"]>> \o s : s \in SeqsUpTo(Calls, MaxCalls) \ {<<>>}}
         /\ w = 1 /\ pc = "start" /\ cq = <<>> /\ cur = <<>> /\ toSrv = <<>> /\ toCli = <<>>
-        /\ got = <<>> /\ acc = {} /\ found = FALSE /\ results = <<>>
+        /\ got = <<>> /\ acc = {} /\ found = FALSE /\ results = <<>> /\ sel = "default"
 
 Call == work[w]
 Active == w <= Len(work)
@@ -73,7 +85,10 @@ PushAll(qs) == /\ cq' = cq \o qs /\ toSrv' = toSrv \o qs
 
 (* ---- server ---------------------------------------------------------------------------- *)
 Serve == /\ toSrv # <<>>
-         /\ toCli' = toCli \o Elements(Head(toSrv)) /\ toSrv' = Tail(toSrv)
+         /\ LET q == Head(toSrv) IN
+            /\ toCli' = toCli \o ElementsA(IF sel = "all" THEN AnsAll ELSE Ans, q)
+            /\ sel' = IF q.c = "s" THEN (IF q.n = "all" THEN "all" ELSE "default") ELSE sel
+         /\ toSrv' = Tail(toSrv)
          /\ UNCHANGED <<work, w, pc, cq, cur, got, acc, found, results>>
 
 (* ---- client: a resolver starts -------------------------------------------------------- *)
@@ -85,7 +100,7 @@ Start ==
        [] Call.k = "asset" -> PushAll(<<Q("i", Call.n)>>) /\ pc' = "initial"
        [] Call.k = "rset" -> PushAll(<<Q("i", Call.n)>>) /\ pc' = "read"
        [] Call.k = "as" -> PushAll(<<Q("g", Call.n), Q("6", Call.n)>>) /\ pc' = "read"
-  /\ UNCHANGED <<work, w, cur, toCli, got, results>>
+  /\ UNCHANGED <<work, w, cur, toCli, got, results, sel>>
 
 Finish(ok, val) ==
   /\ results' = Append(results, [ok |-> ok, val |-> val])
@@ -95,8 +110,21 @@ Consume == /\ toCli # <<>> /\ toCli' = Tail(toCli)
 Note(believed) == got' = Append(got, [believed |-> believed, actual |-> Head(toCli).of, el |-> Head(toCli).el])
 
 (* pop: take the oldest enqueued query, read its status line (blocks until one is there) *)
+NotUniqueForFset ==
+  /\ Active /\ pc = "read" /\ Call.k = "fset" /\ cur = <<>> /\ cq # <<>> /\ toCli # <<>>
+  /\ Head(cq).c = "m" /\ Head(toCli).el = "st" /\ Head(toCli).v = "E" /\ acc = {}
+(* deviation: "not unique" - ask again with the sources selected one at a time (here: the default ones), then `!s-*` *)
+WidenAfterNotUnique ==
+  /\ WidenOnNotUnique /\ NotUniqueForFset
+  /\ Consume /\ Note(Head(cq))
+  /\ LET again == <<Q("s", "one"), Q("m", Call.n), Q("s", "all")>> IN
+     /\ cq' = Tail(cq) \o again /\ toSrv' = toSrv \o again
+  /\ acc' = {"asked again"}
+  /\ UNCHANGED <<work, w, pc, cur, found, results, sel>>
+
 PopStatus ==
   /\ Active /\ pc \in {"initial", "read", "drain"} /\ cur = <<>> /\ cq # <<>>
+  /\ ~(WidenOnNotUnique /\ NotUniqueForFset)
   /\ Consume /\ Note(Head(cq))
   /\ cq' = Tail(cq)
   /\ LET e == Head(toCli) IN
@@ -108,7 +136,7 @@ PopStatus ==
           THEN /\ cur' = <<>> /\ Finish(FALSE, {}) /\ UNCHANGED <<acc, found>>      \* `?` - nothing else is outstanding
           ELSE /\ cur' = <<>> /\ pc' = "read" /\ UNCHANGED <<w, results, acc, found>>
      ELSE /\ cur' = <<>> /\ UNCHANGED <<pc, w, results, acc, found>>                 \* error / empty: sunk
-  /\ UNCHANGED <<work, toSrv>>
+  /\ UNCHANGED <<work, toSrv, sel>>
 
 (* read one element of the response in progress *)
 ReadElement ==
@@ -128,7 +156,7 @@ ReadElement ==
      ELSE /\ cur' = <<>>                                                 \* end marker (or anything else): response over
           /\ pc' = IF pc = "initial" THEN "read" ELSE pc
           /\ UNCHANGED <<cq, toSrv, acc, found>>
-  /\ UNCHANGED <<work, w, results>>
+  /\ UNCHANGED <<work, w, results, sel>>
 
 (* the pipeline is exhausted: the resolver returns *)
 Return ==
@@ -136,20 +164,22 @@ Return ==
   /\ CASE Call.k = "init" -> Finish(TRUE, {})
        [] Call.k = "fset" -> Finish(TRUE, IF found THEN {"expr"} ELSE {"NOT ANY"})
        [] OTHER -> Finish(TRUE, acc)
-  /\ UNCHANGED <<work, cq, cur, toSrv, toCli, got, acc, found>>
+  /\ UNCHANGED <<work, cq, cur, toSrv, toCli, got, acc, found, sel>>
 
 (* deviation: a dropped pipeline forgets what is outstanding instead of reading it *)
 ForgetOnDrop ==
   /\ ~DrainOnDrop /\ Active /\ pc = "drain" /\ (cq # <<>> \/ cur # <<>>)
   /\ cq' = <<>> /\ cur' = <<>>
-  /\ UNCHANGED <<work, w, pc, toSrv, toCli, got, acc, found, results>>
+  /\ UNCHANGED <<work, w, pc, toSrv, toCli, got, acc, found, results, sel>>
 
-Next == Serve \/ Start \/ PopStatus \/ ReadElement \/ Return \/ ForgetOnDrop
+Next == Serve \/ Start \/ PopStatus \/ ReadElement \/ Return \/ ForgetOnDrop \/ WidenAfterNotUnique
 Spec == Init /\ [][Next]_vars /\ WF_vars(Next)
 
 (* ---- contract ---------------------------------------------------------------------------- *)
 Aligned == \A k \in 1..Len(got) : got[k].believed = got[k].actual
 CleanStart == Active /\ pc = "start" => cq = <<>> /\ cur = <<>> /\ toSrv = <<>> /\ toCli = <<>>
 HistoryFree == \A k \in 1..Len(results) : results[k] = Meaning(work[k])
+(* a resolver leaves the connection's source selection as it found it *)
+SelectionKept == (Active /\ pc = "start") => sel = "default"
 Finishes == <>(~Active)
 =============================================================================
